@@ -304,6 +304,9 @@ func (p *provRun) guard(f func() error) (err error, panicked string, exit bool) 
 			default:
 				panicked = fmt.Sprint(r)
 				p.res.Summary = string(debug.Stack())
+				if m := unimplementedSDK(p.res.Summary); m != "" {
+					p.res.HarnessErr = "the code under test called " + m + ", which the simulated AWS does not implement"
+				}
 			}
 		}
 	}()
@@ -379,6 +382,11 @@ func (p *provRun) opIncrease(d int64) {
 }
 
 func (p *provRun) judgeIncrease(d int64, k *KnownASG, err error, exit bool) {
+	amb := false
+	if kk := p.w.known[p.g.ASG]; !k.Valid && k.Ambiguous || kk != nil && kk.Ambiguous {
+		p.st.Probe("increase judged without a known cloud state (ambiguous)")
+		amb = true // what does not depend on the group's current size and maximum is still judged
+	}
 	gs, g := p.gs, p.g
 	st := p.st
 	var writes, sets, fleets, attaches, terms []*Call
@@ -398,7 +406,10 @@ func (p *provRun) judgeIncrease(d int64, k *KnownASG, err error, exit bool) {
 		}
 	}
 	st.Check("c17", uint64(d)<<20|uint64(len(attaches))<<8|uint64(len(terms)))
-	if d <= 0 || k.Desired+d > k.Max {
+	if amb && d > 0 && p.g.LaunchTemplateID == "" {
+		return
+	}
+	if d <= 0 || !amb && k.Desired+d > k.Max {
 		st.Probe(ifs(d <= 0, "increase d<=0", "increase over max"))
 		if err == nil {
 			p.viol("C17", "c17-rejected-write", "no-error", p.siteAfterRemoval(), fmt.Sprintf("IncreaseSize(%d) on desired %d max %d returned no error", d, k.Desired, k.Max))
@@ -409,11 +420,11 @@ func (p *provRun) judgeIncrease(d int64, k *KnownASG, err error, exit bool) {
 		return
 	}
 	if g.LaunchTemplateID == "" {
-		if len(sets) != 1 || len(fleets) != 0 {
+		if len(sets) == 0 || len(fleets) != 0 || !identicalRetries(sets) {
 			p.viol("C17", "c17-exact", "calls", p.siteAfterRemoval(), fmt.Sprintf("IncreaseSize(%d): %d SetDesiredCapacity, %d CreateFleet calls", d, len(sets), len(fleets)), writes...)
 			return
 		}
-		c := sets[0]
+		c := sets[len(sets)-1] // earlier ones, if any, are refused requests for the very same size
 		if c.Target != g.ASG || c.Desired != k.Desired+d {
 			p.viol("C17", "c17-exact", "", p.siteAfterRemoval(), fmt.Sprintf("IncreaseSize(%d) on known desired %d issued SetDesiredCapacity(%s, %d)", d, k.Desired, c.Target, c.Desired), c)
 			if p.deletesSinceRefresh > 0 {
@@ -612,6 +623,10 @@ func (p *provRun) opDelete(nodes []*v1.Node) {
 }
 
 func (p *provRun) judgeDelete(nodes []*v1.Node, k *KnownASG, err error) {
+	if kk := p.w.known[p.g.ASG]; !k.Valid && k.Ambiguous || kk != nil && kk.Ambiguous {
+		p.st.Probe("delete judged without a known cloud state (ambiguous)")
+		return
+	}
 	gs := p.gs
 	defer func() {
 		for _, c := range gs.Calls {
@@ -649,53 +664,89 @@ func (p *provRun) judgeDelete(nodes []*v1.Node, k *KnownASG, err error) {
 		p.viol("C19", "c19-count", "", "", fmt.Sprintf("%d terminate calls with desired %d and min %d", len(terms), k.Desired, k.Min), terms...)
 		return
 	}
-	// walk the given nodes in order
-	ti := 0
+	// Set-wise, not in any order: the property fixes WHICH instances may be terminated and how the request
+	// must end, not the order in which the given nodes are worked through, which non-member is named when
+	// there are several, or whether the remaining nodes are still tried after one terminate failed.
+	byInst := map[string]*v1.Node{}
+	var foreign []*v1.Node
 	for idx, n := range nodes {
 		id := instanceOf(n.Spec.ProviderID)
-		member := false
 		if pid, ok := k.Instances[id]; ok && pid == n.Spec.ProviderID {
-			member = true
-		}
-		if !member {
+			byInst[id] = n
+		} else {
+			foreign = append(foreign, n)
 			st.Probe(fmt.Sprintf("foreign node at %s", ifs(idx == 0, "first", ifs(idx == len(nodes)-1, "last", "middle"))))
-			ne, ok := err.(*cloudprovider.NodeNotInNodeGroup)
-			if !ok || ne.NodeName != n.Name {
-				p.viol("C19", "c19-foreign", "error", "", fmt.Sprintf("node %s (%q) is not a member: expected NodeNotInNodeGroup naming it, got %v", n.Name, n.Spec.ProviderID, err))
-				return
+		}
+	}
+	acked := map[string]int{}
+	anyFailed := false
+	for _, c := range terms {
+		n, ok := byInst[c.Target]
+		if !ok {
+			for _, f := range foreign {
+				if instanceOf(f.Spec.ProviderID) == c.Target {
+					p.viol("C19", "c19-foreign", "terminated", "", fmt.Sprintf("node %s (%q) is not a member of the known ASG, yet its instance was submitted for termination", f.Name, f.Spec.ProviderID), c)
+					return
+				}
 			}
-			if ti != len(terms) {
-				p.viol("C19", "c19-foreign", "continued", "", fmt.Sprintf("terminate calls continued after the non-member %s", n.Name), terms[ti:]...)
-			}
+			p.viol("C19", "c19-instance", "", "", fmt.Sprintf("terminate call names %q, which backs none of the given nodes", c.Target), c)
 			return
 		}
-		if ti >= len(terms) {
-			if err == nil {
-				p.viol("C19", "c19-instance", "missing", "", fmt.Sprintf("no terminate call for member %s and no error", n.Name))
-			} else if ne, ok := err.(*cloudprovider.NodeNotInNodeGroup); ok && ne.NodeName == n.Name {
-				p.viol("C19", "c19-foreign", "member-refused", "", fmt.Sprintf("node %s (%q) IS a member of the known ASG, yet the request stopped with the not-in-group error naming it", n.Name, n.Spec.ProviderID))
-			}
-			return
-		}
-		c := terms[ti]
-		ti++
-		if c.Target != id || !c.DecrementSet || !c.Decrement {
-			p.viol("C19", "c19-instance", "", "", fmt.Sprintf("node %s is backed by %s: terminate call names %q decrement=%v", n.Name, id, c.Target, c.Decrement), c)
+		if !c.DecrementSet || !c.Decrement {
+			p.viol("C19", "c19-instance", "", "", fmt.Sprintf("node %s is backed by %s: terminate call names %q decrement=%v", n.Name, c.Target, c.Target, c.Decrement), c)
 			return
 		}
 		if c.Err != "" {
+			anyFailed = true
 			st.Probe("k-th terminate failed")
-			if err == nil {
-				p.viol("C19", "c19-instance", "unreported", "", "a terminate call failed but DeleteNodes returned no error", c)
-			}
-			if ti != len(terms) {
-				p.viol("C19", "c19-order", "continued-after-failure", "", "terminate calls continued after a failed one", terms[ti:]...)
-			}
+			continue
+		}
+		acked[c.Target]++
+		if acked[c.Target] > 1 {
+			p.viol("C19", "c19-instance", "extra", "", fmt.Sprintf("instance %s of node %s terminated twice in one request", c.Target, n.Name), terms...)
 			return
 		}
 	}
-	if ti != len(terms) {
-		p.viol("C19", "c19-instance", "extra", "", fmt.Sprintf("%d terminate calls for %d given nodes", len(terms), len(nodes)), terms...)
+	ne := asNotInGroup(err)
+	if ne != nil {
+		for _, n := range byInst {
+			if n.Name == ne.NodeName {
+				p.viol("C19", "c19-foreign", "member-refused", "", fmt.Sprintf("node %s (%q) IS a member of the known ASG, yet the request stopped with the not-in-group error naming it", n.Name, n.Spec.ProviderID))
+				return
+			}
+		}
+	}
+	if len(foreign) > 0 {
+		if anyFailed && err != nil {
+			return // a cloud refusal ended the request before the non-member mattered
+		}
+		named := false
+		for _, f := range foreign {
+			if ne != nil && ne.NodeName == f.Name {
+				named = true
+			}
+		}
+		if !named {
+			p.viol("C19", "c19-foreign", "error", "", fmt.Sprintf("node %s (%q) is not a member: expected the not-in-group error naming a non-member, got %v", foreign[0].Name, foreign[0].Spec.ProviderID, err))
+		}
+		return
+	}
+	if anyFailed {
+		if err == nil {
+			p.viol("C19", "c19-instance", "unreported", "", "a terminate call failed but DeleteNodes returned no error", terms...)
+		}
+		return
+	}
+	missing := ""
+	for id, n := range byInst {
+		if acked[id] == 0 && (missing == "" || n.Name < missing) {
+			missing = n.Name
+		}
+	}
+	if missing != "" {
+		if err == nil {
+			p.viol("C19", "c19-instance", "missing", "", fmt.Sprintf("no terminate call for member %s and no error", missing))
+		}
 		return
 	}
 	if err != nil {
